@@ -365,6 +365,59 @@ example : ∀ j, ∀ f' ∈ ([[⟨[.n 3], .n 0, .n 5⟩], [⟨[.n 1], .n 0, .n 4
         | 1 => rfl
         | n + 2 => simp)
 
+/-- **swizzle's active-range reset**: the range the final loop of `swizzleRanks` gives a rebuilt
+    fiber (start from the operand ranges containing its FIRST coordinate, end from those containing
+    its LAST one) exists as soon as some operand range of that rank contains the first and some
+    contains the last coordinate, and it contains every coordinate of the (ascending) fiber. -/
+theorem swizzle_reset_contains (ranges : List (Int × Int)) (coords : List Int) (hasc : coords.Pairwise (· < ·))
+    (c0 c1 : Int) (h0 : coords.head? = some c0) (h1 : coords.getLast? = some c1)
+    (hr0 : ∃ r ∈ ranges, r.1 ≤ c0 ∧ c0 < r.2) (hr1 : ∃ r ∈ ranges, r.1 ≤ c1 ∧ c1 < r.2) :
+    ∃ lo hi, swizReset ranges coords = some (lo, hi) ∧ ∀ c ∈ coords, lo ≤ c ∧ c < hi := by
+  unfold swizReset
+  rw [h0, h1]
+  simp only
+  obtain ⟨r0, hr0m, hr0a, hr0b⟩ := hr0
+  obtain ⟨r1, hr1m, hr1a, hr1b⟩ := hr1
+  have hs : r0.1 ∈ (ranges.filter (fun r => decide (r.1 ≤ c0) && decide (c0 < r.2))).map (·.1) :=
+    List.mem_map.2 ⟨r0, List.mem_filter.2 ⟨hr0m, by simp [hr0a, hr0b]⟩, rfl⟩
+  have he : r1.2 ∈ (ranges.filter (fun r => decide (r.1 ≤ c1) && decide (c1 < r.2))).map (·.2) :=
+    List.mem_map.2 ⟨r1, List.mem_filter.2 ⟨hr1m, by simp [hr1a, hr1b]⟩, rfl⟩
+  cases hS : (ranges.filter (fun r => decide (r.1 ≤ c0) && decide (c0 < r.2))).map (·.1) with
+  | nil => rw [hS] at hs; cases hs
+  | cons s ss =>
+    cases hE : (ranges.filter (fun r => decide (r.1 ≤ c1) && decide (c1 < r.2))).map (·.2) with
+    | nil => rw [hE] at he; cases he
+    | cons e es =>
+      refine ⟨_, _, rfl, ?_⟩
+      -- every start considered is ≤ c0, every end considered is > c1
+      have hsall : ∀ x ∈ s :: ss, x ≤ c0 := by
+        intro x hx
+        rw [← hS] at hx
+        obtain ⟨r, hr, rfl⟩ := List.mem_map.1 hx
+        have := (List.mem_filter.1 hr).2
+        simp only [Bool.and_eq_true, decide_eq_true_eq] at this
+        exact this.1
+      have heall : ∀ x ∈ e :: es, c1 < x := by
+        intro x hx
+        rw [← hE] at hx
+        obtain ⟨r, hr, rfl⟩ := List.mem_map.1 hx
+        have := (List.mem_filter.1 hr).2
+        simp only [Bool.and_eq_true, decide_eq_true_eq] at this
+        exact this.2
+      have hlo : ss.foldl min s ≤ c0 :=
+        Int.le_trans (foldl_min_le' ss s).1 (hsall s (List.mem_cons_self ..))
+      have hhi : c1 < es.foldl max e :=
+        Int.lt_of_lt_of_le (heall e (List.mem_cons_self ..)) (le_foldl_max' es e).1
+      intro c hc
+      obtain ⟨h, hh, hle⟩ := head_le_of_asc coords hasc c hc
+      obtain ⟨l, hl, hge⟩ := le_getLast coords hasc c hc
+      rw [h0] at hh; cases hh
+      rw [h1] at hl; cases hl
+      omega
+
+/-- a rebuilt root that spans two partitions of a split operand: `(0, 8)`, not `(0, 4)` -/
+example : swizReset [(0, 4), (4, 8)] [0, 1, 5, 7] = some (0, 8) := by decide
+
 /-- **flatten** (styles tuple / pair, one level): the merged coordinates `(c1, c0)` lie componentwise
     inside the shape `(S1, S0)` and lexicographically inside the active range the code builds,
     `((lo1, min lo0), (hi1, max hi0))`, whenever each operand fiber's coordinates lie inside its own
